@@ -1,4 +1,4 @@
-// U-data: scoping of task data (C07): Task::update_data (a write goes to the enclosing scope that declares the name, never outside
+// U-data: scoping of task data (C07): Task::update_data (a write goes to every enclosing scope that declares the name, never outside
 // the writer's ancestry, private keys never leave their task), Task::find (own data first, then the ancestors nearest-first),
 // Task::set_data (merge).
 // Model: task data behind the RwLock = ghost map tid -> (name -> value); parent chain = uninterpreted `parent_tid` with a depth
@@ -121,27 +121,24 @@ pub proof fn lemma_anc_depths(t: Tid)
     }
     if ancestors(t).contains(t) { let i = choose|i: int| 0 <= i < ancestors(t).len() && ancestors(t)[i] == t; assert(depth(ancestors(t)[i]) < depth(t)); }
 }
-// `declares` picks at most one scope
-pub proof fn lemma_declares_unique(d: Map<Tid, DataMap>, anc: Seq<Tid>, k: Key, i: int, j: int)
-    requires declares(d, anc, k, i), declares(d, anc, k, j)
-    ensures i == j
-{ reveal(declares); if i < j { assert(!d[anc[j]].dom().contains(k)); } if j < i { assert(!d[anc[i]].dom().contains(k)); } }
 // `declares` only looks at which scope holds which name
 pub proof fn lemma_declares_dom(d: Map<Tid, DataMap>, e: Map<Tid, DataMap>, anc: Seq<Tid>, k: Key, i: int)
     requires forall|j: int| 0 <= j < anc.len() ==> (#[trigger] e[anc[j]]).dom() == d[anc[j]].dom()
     ensures declares(d, anc, k, i) == declares(e, anc, k, i)
-{ reveal(declares); }
+{ }
 
 // i is the first scope on the chain (the task itself, then its ancestors nearest first) in which the name can be read as a T
 #[verifier::opaque]
 pub open spec fn first_readable<T>(h: DHeap, chain: Seq<Tid>, k: Key, i: int) -> bool {
     0 <= i < chain.len() && readable::<T>(h.data[chain[i]], k) && forall|j: int| 0 <= j < i ==> !readable::<T>(h.data[#[trigger] chain[j]], k)
 }
-// ---- oracle (statement): a non-private name written by the task lands in the OUTERMOST enclosing scope that declares it
-// i is the index (in ancestors, nearest first) of the scope that declares k: it holds k and nothing nearer to the root does
-#[verifier::opaque]
+// ---- oracle (statement): "a value written ... to a name that an enclosing scope declares, updates that scope and is seen by every later condition,
+// script and message": a non-private name written by the task is updated in EVERY enclosing scope that declares (holds) it, so that a later read
+// sees it whichever way it resolves the name -- nearest scope first (Task::find: $get, output filling) or outermost scope first (Task::vars:
+// conditions, templates, script globals).
+// i is the index (in ancestors, nearest first) of a scope that declares k
 pub open spec fn declares(d: Map<Tid, DataMap>, anc: Seq<Tid>, k: Key, i: int) -> bool {
-    0 <= i < anc.len() && d[anc[i]].dom().contains(k) && forall|j: int| i < j < anc.len() ==> !d[#[trigger] anc[j]].dom().contains(k)
+    0 <= i < anc.len() && d[anc[i]].dom().contains(k)
 }
 // the value of name k in ancestor i after the write of `vars` restricted to the names in `done`
 pub open spec fn expected(d: Map<Tid, DataMap>, anc: Seq<Tid>, vars: DataMap, done: Set<Key>, i: int, k: Key) -> JsonValue {
@@ -250,7 +247,7 @@ impl Task {
             //# V2-private-keys-never-leave-their-task
             forall|i: int, k: Key| 0 <= i < ancestors(self.id@).len() && is_private(k) && old(h).data[ancestors(self.id@)[i]].dom().contains(k)
                 ==> #[trigger] final(h).data[ancestors(self.id@)[i]][k] == old(h).data[ancestors(self.id@)[i]][k],
-            //# V3-a-declared-name-is-updated-in-the-scope-that-declares-it
+            //# V3-a-declared-name-is-updated-in-every-enclosing-scope-that-declares-it
             forall|i: int, k: Key| vars@.dom().contains(k) && !is_private(k) && #[trigger] declares(old(h).data, ancestors(self.id@), k, i)
                 ==> final(h).data[ancestors(self.id@)[i]][k] == vars@[k],
             //# V4-no-scope-gains-a-name-and-nothing-else-changes
@@ -263,6 +260,9 @@ impl Task {
                 ==> final(h).saved.contains(ancestors(self.id@)[i]),
             //# V5-the-writers-own-data-takes-every-value
             final(h).data[self.id@] == old(h).data[self.id@].union_prefer_right(vars@),
+            //# V9-read-your-writes-every-scope-on-the-writers-chain-that-holds-the-name-afterwards-holds-the-written-value
+            forall|i: int, k: Key| vars@.dom().contains(k) && !is_private(k) && #[trigger] declares(final(h).data, seq![self.id@] + ancestors(self.id@), k, i)
+                ==> final(h).data[(seq![self.id@] + ancestors(self.id@))[i]][k] == vars@[k],
 //@@ proof at=beforeloop1
         proof { lemma_ancestors_step(self.id@); lemma_anc_depths(self.id@); }
         let ghost anc = ancestors(self.id@);
@@ -302,60 +302,53 @@ impl Task {
                 assert(saved_ok(*old(h), h2, anc, vars@, done0));
             }
 //@@ loop 3
-        invariant_except_break
-            //# not-found-nearer-the-root
-            *h == h2 && (forall|j: int| __i3 <= j < anc.len() ==> !h2.data[#[trigger] anc[j]].dom().contains(nm)),
+        invariant
+            //# every-holder-from-the-root-down-to-here-took-the-value-and-was-saved
+            h.data.dom() == h2.data.dom()
+                && (forall|t: Tid| #[trigger] h2.data.dom().contains(t) && !anc.contains(t) ==> h.data[t] == h2.data[t])
+                && (forall|j: int| 0 <= j < __i3 ==> h.data[#[trigger] anc[j]] == h2.data[anc[j]])
+                && (forall|j: int| __i3 <= j < anc.len() ==> h.data[#[trigger] anc[j]] == (if h2.data[anc[j]].dom().contains(nm) { h2.data[anc[j]].insert(nm, vars@[nm]) } else { h2.data[anc[j]] }))
+                && (forall|t: Tid| h2.saved.contains(t) ==> #[trigger] h.saved.contains(t))
+                && (forall|j: int| __i3 <= j < anc.len() && h2.data[anc[j]].dom().contains(nm) ==> h.saved.contains(#[trigger] anc[j])),
         invariant
             //# chain-facts
-            __v3@ == refs@ && anc == ids(refs@) && name@ == nm && *value == vars@[nm] && (forall|j: int| 0 <= j < anc.len() ==> h2.data.dom().contains(#[trigger] anc[j])),
-        ensures
-            //# found-the-outermost-holder-or-nothing
-            (*h == h2 && (forall|j: int| 0 <= j < anc.len() ==> !h2.data[#[trigger] anc[j]].dom().contains(nm)))
-            || (exists|m: int| 0 <= m < anc.len() && #[trigger] declares(h2.data, anc, nm, m) && h.data == h2.data.insert(anc[m], h2.data[anc[m]].insert(nm, vars@[nm])) && h.saved == h2.saved.push(anc[m])),
+            __v3@ == refs@ && anc == ids(refs@) && anc.no_duplicates() && name@ == nm && *value == vars@[nm] && (forall|j: int| 0 <= j < anc.len() ==> h2.data.dom().contains(#[trigger] anc[j])),
 //@@ proof at=loop3
-                proof { assert(ids(refs@)[__i3 - 1] == refs@[__i3 - 1].id@); }
+                let ghost hb = *h;
+                proof { assert(ids(refs@)[__i3 - 1] == refs@[__i3 - 1].id@); assert(hb.data.dom().contains(anc[__i3 - 1])); }
 //@@ proof after=set_if_exists#1
+                let ghost hc = *h;
                 proof {
-                    if is_updated {
-                        reveal(declares);
-                        assert(declares(h2.data, anc, nm, __i3 as int));
-                    }
+                    let m = __i3 as int;
+                    assert(t.id@ == anc[m]);
+                    assert(hb.data[anc[m]] == h2.data[anc[m]]);
+                    assert(hc.data.dom() =~= h2.data.dom());
+                    assert forall|j: int| 0 <= j < anc.len() && j != m implies hc.data[#[trigger] anc[j]] == hb.data[anc[j]] by { assert(anc[j] != anc[m]); }
+                    assert forall|x: Tid| #[trigger] h2.data.dom().contains(x) && !anc.contains(x) implies hc.data[x] == h2.data[x] by { assert(x != anc[m]); }
                 }
+//@@ proof after=cache_upsert#1
+                    proof {
+                        assert forall|x: Tid| h2.saved.contains(x) implies #[trigger] h.saved.contains(x) by { lemma_push_contains(hc.saved, anc[__i3 as int], x); }
+                        assert forall|j: int| __i3 <= j < anc.len() && h2.data[anc[j]].dom().contains(nm) implies h.saved.contains(#[trigger] anc[j]) by {
+                            lemma_push_contains(hc.saved, anc[__i3 as int], anc[j]);
+                        }
+                    }
 //@@ proof at=afterloop3
             proof {
                 assert forall|j: int| 0 <= j < anc.len() implies (#[trigger] h2.data[anc[j]]).dom() == old(h).data[anc[j]].dom() by {}
-                if *h == h2 && (forall|j: int| 0 <= j < anc.len() ==> !h2.data[#[trigger] anc[j]].dom().contains(nm)) {
-                    assert forall|i: int, k: Key| done.contains(k) && vars@.dom().contains(k) && !is_private(k) && #[trigger] declares(old(h).data, anc, k, i)
-                        implies h.saved.contains(anc[i]) by {
-                        if k == nm { reveal(declares); assert(!h2.data[anc[i]].dom().contains(nm)); assert(old(h).data[anc[i]].dom() == h2.data[anc[i]].dom()); }
-                    }
-                    assert forall|i: int, k: Key| 0 <= i < anc.len() && old(h).data[anc[i]].dom().contains(k)
-                        implies #[trigger] h.data[anc[i]][k] == expected(old(h).data, anc, vars@, done, i, k) by {
-                        if k == nm { reveal(declares); assert(!h2.data[anc[i]].dom().contains(nm)); }
-                    }
-                } else {
-                    let m = choose|m: int| 0 <= m < anc.len() && #[trigger] declares(h2.data, anc, nm, m) && h.data == h2.data.insert(anc[m], h2.data[anc[m]].insert(nm, vars@[nm])) && h.saved == h2.saved.push(anc[m]);
-                    lemma_declares_dom(old(h).data, h2.data, anc, nm, m);
-                    assert(h2.data[anc[m]].dom().contains(nm)) by { reveal(declares); }
-                    assert(h.data.dom() =~= h2.data.dom());
-                    assert(h.data[anc[m]].dom() =~= h2.data[anc[m]].dom());
-                    assert forall|t: Tid| #[trigger] old(h).data.dom().contains(t) && !anc.contains(t) implies h.data[t] == old(h).data[t] by { assert(t != anc[m]); }
-                    assert forall|i: int| 0 <= i < anc.len() implies (#[trigger] h.data[anc[i]]).dom() == old(h).data[anc[i]].dom() by {
-                        if i != m { assert(anc[i] != anc[m]); }
-                    }
-                    assert forall|i: int, k: Key| 0 <= i < anc.len() && old(h).data[anc[i]].dom().contains(k)
-                        implies #[trigger] h.data[anc[i]][k] == expected(old(h).data, anc, vars@, done, i, k) by {
-                        if i != m { assert(anc[i] != anc[m]); }
-                        if k == nm && i != m {
-                            if declares(old(h).data, anc, nm, i) { lemma_declares_unique(old(h).data, anc, nm, i, m); }
-                        }
-                    }
-                    assert(h.data[self.id@] == old(h).data[self.id@]);
-                    assert forall|i: int, k: Key| done.contains(k) && vars@.dom().contains(k) && !is_private(k) && #[trigger] declares(old(h).data, anc, k, i)
-                        implies h.saved.contains(anc[i]) by {
-                        if k == nm { lemma_declares_unique(old(h).data, anc, nm, i, m); lemma_push_contains(h2.saved, anc[m], anc[m]); }
-                        else { assert(h2.saved.contains(anc[i])); lemma_push_contains(h2.saved, anc[m], anc[i]); }
-                    }
+                assert forall|t: Tid| #[trigger] old(h).data.dom().contains(t) && !anc.contains(t) implies h.data[t] == old(h).data[t] by { assert(h2.data[t] == old(h).data[t]); }
+                assert forall|i: int| 0 <= i < anc.len() implies (#[trigger] h.data[anc[i]]).dom() == old(h).data[anc[i]].dom() by {
+                    assert(h.data[anc[i]].dom() =~= h2.data[anc[i]].dom());
+                }
+                assert forall|i: int, k: Key| 0 <= i < anc.len() && old(h).data[anc[i]].dom().contains(k)
+                    implies #[trigger] h.data[anc[i]][k] == expected(old(h).data, anc, vars@, done, i, k) by {
+                    assert(h2.data[anc[i]][k] == expected(old(h).data, anc, vars@, done0, i, k));
+                    assert(h2.data[anc[i]].dom().contains(k));
+                }
+                assert(h.data[self.id@] == old(h).data[self.id@]);
+                assert forall|i: int, k: Key| done.contains(k) && vars@.dom().contains(k) && !is_private(k) && #[trigger] declares(old(h).data, anc, k, i)
+                    implies h.saved.contains(anc[i]) by {
+                    if k == nm { assert(h2.data[anc[i]].dom().contains(nm)); } else { assert(h2.saved.contains(anc[i])); }
                 }
             }
 //@@ proof at=afterloop2
@@ -380,9 +373,20 @@ impl Task {
             assert forall|i: int| 0 <= i < anc.len() implies #[trigger] anc[i] != self.id@ by {}
             assert forall|i: int, k: Key| vars@.dom().contains(k) && !is_private(k) && #[trigger] declares(old(h).data, anc, k, i)
                 implies h.data[anc[i]][k] == vars@[k] by {
-                reveal(declares);
                 assert(anc[i] != self.id@);
                 assert(h3.data[anc[i]][k] == expected(old(h).data, anc, vars@, vars@.dom(), i, k));
+            }
+            let chain = seq![self.id@] + anc;
+            assert forall|i: int, k: Key| vars@.dom().contains(k) && !is_private(k) && #[trigger] declares(h.data, chain, k, i)
+                implies h.data[chain[i]][k] == vars@[k] by {
+                if i > 0 {
+                    assert(chain[i] == anc[i - 1]);
+                    assert(anc[i - 1] != self.id@);
+                    assert(h.data[anc[i - 1]] == h3.data[anc[i - 1]]);
+                    assert(h3.data[anc[i - 1]].dom() == old(h).data[anc[i - 1]].dom());
+                    assert(declares(old(h).data, anc, k, i - 1));
+                    assert(h3.data[anc[i - 1]][k] == expected(old(h).data, anc, vars@, vars@.dom(), i - 1, k));
+                }
             }
         }
 //@@ end
